@@ -198,6 +198,11 @@ func stallKey(sc *tcpx.Scenario, res *tcpx.Result) (string, string) {
 			if pass == 0 && res.Dir[d].Read >= int64(sc.Bytes[d]) || pass == 1 && (res.Dir[d].Read < int64(sc.Bytes[d]) || res.Dir[d].EOF) {
 				continue
 			}
+			if res.LastWndDelivered[d] == 0 && res.LastWndEmitted[d] == 0 && res.LastWndRefused[d] > 0 {
+				// the receiver tried to reopen the window but its own link refused the packet
+				// (device queue full): lost like any other window update
+				return "C02/stall/closed-window/lost-window-update", fmt.Sprintf("direction %d: the sender last saw window 0; the receiver's window update (window %d) was refused by its link and never repeated", d, res.LastWndRefused[d])
+			}
 			if res.LastWndDelivered[d] == 0 && res.LastWndEmitted[d] > 0 {
 				if res.LastWndDropped[d] {
 					return "C02/stall/closed-window/lost-window-update", fmt.Sprintf("direction %d: the sender last saw window 0; the receiver's latest segment (window %d) was lost", d, res.LastWndEmitted[d])
